@@ -56,23 +56,23 @@ CHECKS = {
  "C10": dict(
     level="exploration", design="2/C10",
     technique="runtime monitor: reference-model oracle (per-operation reference request) vs the built request, in memory and as decoded from its bytes by the reference decoder",
-    text="Random builder programs over the 10 operations (builders and operation structs), with repeated setters, arbitrary UTF-8 arguments, boundary job ids, 0/1/n requested attributes, G5 target URIs and G1 job attribute values with recurring (name, value) pairs (x, y, x) under a pool of 44 attribute names (job-template names, document/operation attribute names a library might special-case, the header attribute names, look-alikes) plus arbitrary strings, are executed against the library and compared with a reference request (registry operation code, version 1.1, positive request-id, exactly the expected attributes with the stated syntaxes in the right group, last-wins for extras, payload bytes); plus the raw constructors over every registered operation and every status the library has a symbol for (header and wire octets).",
+    text="Random builder programs over the 10 operations (builders and operation structs), with repeated setters, arbitrary UTF-8 arguments, boundary job ids, 0/1/n requested attributes, G5 target URIs, documents handed over by a buffer-filling source or in short reads of 1-9 octets, and G1 job attribute values with recurring (name, value) pairs (x, y, x) under a pool of 44 attribute names (job-template names, document/operation attribute names a library might special-case, the header attribute names, look-alikes) plus arbitrary strings, are executed against the library and compared with a reference request (registry operation code, version 1.1, positive request-id, exactly the expected attributes with the stated syntaxes in the right group, last-wins for extras, payload bytes); plus the raw constructors over every registered operation and every status the library has a symbol for (header and wire octets).",
     note="Reference canonical printer-uri comes from the harness's own URI splitter (C13's oracle)."),
  "C13": dict(
     level="exploration", design="2/C13",
     technique="runtime monitor: component oracle with taint markers over an exhaustive URI component grid plus seeded random URIs",
-    text="Targets are assembled from known components (138240-point grid over scheme x host form x port x user-info x path x query, plus random), user-info and query carry markers; the canonical printer-uri from the helper and from all 9 URI-taking constructors is split by an independent splitter and compared component-wise, the markers must not occur anywhere in the request bytes, canonicalisation must be idempotent, and every judged call is preceded by three look-alike targets (authority case swapped; other credentials, port, query, scheme or path case; default port spelled out or left out) so that a result remembered from an earlier call shows. Hosts are compared ASCII-case-insensitively ('the same host').",
+    text="Targets are assembled from known components (138240-point grid over scheme x host form x port x user-info x path x query, plus random, including registered-name hosts of 200-4000 octets), user-info and query carry markers; the canonical printer-uri from the helper, from all 9 URI-taking constructors and from the raw constructor under each of the five protocol versions is split by an independent splitter and compared component-wise, the markers must not occur anywhere in the request bytes, canonicalisation must be idempotent, and every judged call is preceded by three look-alike targets (authority case swapped; other credentials, port, query, scheme or path case; default port spelled out or left out) so that a result remembered from an earlier call shows. Hosts are compared ASCII-case-insensitively ('the same host').",
     note="Targets http::Uri refuses are counted and skipped."),
  "C14": dict(
     level="exploration", design="2/C14",
     technique="runtime monitor at a cfg-guarded hook (verif_transport_url): component oracle over the C13 grid plus random URIs with look-alike pre-calls (history independence); plus a live loopback peer observing request line and Host header of both clients",
-    text="The private mapping the clients use is reached through the add-only hook and compared component-wise with the reference mapping (ipp->http, ipps->https, 631 when no port, explicit port kept, everything else unchanged, http/https untouched) over the full grid and random URIs, each judged call preceded by three look-alike targets (authority case swapped; other credentials / port / query / scheme / path case; default port spelled out or left out) so that a mapping remembered from an earlier call shows; the grid includes option-like queries such as encryption=required. The second observation point is live: both clients send to explicit-port targets (ipp/http x three host spellings x four user-info forms x six path/query forms = 288 sends) and the loopback peer must see exactly one request on that port whose request target equals the target's path and query and whose single Host header equals host:port; a client re-used after an HTTP 426 / 3xx / 4xx / 5xx answer must contact the same URL again. The port-less ipps -> 443 mapping is a listed known finding with an exact signature; any other discrepancy fails the check.",
+    text="The private mapping the clients use is reached through the add-only hook and compared component-wise with the reference mapping (ipp->http, ipps->https, 631 when no port, explicit port kept, everything else unchanged, http/https untouched) over the full grid and random URIs, each judged call preceded by three look-alike targets (authority case swapped; other credentials / port / query / scheme / path case; default port spelled out or left out) so that a mapping remembered from an earlier call shows; every 4th target is also mapped through a client object (IppClient::new(target).uri()), which must give the same URL, so that a constructor rewriting its target shows; the grid includes option-like queries such as encryption=required. The second observation point is live: both clients send to explicit-port targets (ipp/http x three host spellings x four user-info forms x six path/query forms = 288 sends) and the loopback peer must see exactly one request on that port whose request target equals the target's path and query and whose single Host header equals host:port; 64 further sends go to a peer that answers any target, with no path, '/', '/?query' and the shortest paths, whose request line must carry exactly that; clients built by the plain constructors must hold a target that maps like the one given; a client re-used after an HTTP 426 / 3xx / 4xx / 5xx answer must contact the same URL again. The port-less ipps -> 443 mapping is a listed known finding with an exact signature; any other discrepancy fails the check.",
     note="Hook: --cfg ancwrd1_ipp_rs_verif. Port-less targets cannot be observed live (port 631 is not bindable here); they are covered by the hook."),
 
  "C08": dict(
     level="exploration", design="2/C08",
     technique="runtime monitor: byte-for-byte stream oracle (collected stream vs to_bytes() ++ payload) under scripted payload sources, varying consumer buffers, manual executor and the real block_on bridge",
-    text="Each generated message is consumed through into_read and into_async_read with payload sources {none, blocking scripted reader, async scripted reader}, payloads from 0 B to MiBs delivered with random chunking, Interrupted and Pending (immediate / deferred wake, helper-thread wakes under the blocking bridge), and consumer read-buffer sizes varying per call from 1 B to 64 KiB; the collected bytes must equal to_bytes() of the same instance (whose 8 header octets are themselves judged against the header values, and which in every 4th case is taken before the header is changed through header_mut(), the stream having to carry the header as it is now) followed by exactly the payload, end with repeated clean EOF, and drain the source. Cross pairs (blocking payload via async, async payload via blocking) are part of every run.",
+    text="Each generated message is consumed through into_read and into_async_read with payload sources {none, blocking scripted reader, async scripted reader}, payloads from 0 B to MiBs delivered with random chunking, Interrupted and Pending (immediate / deferred wake, helper-thread wakes under the blocking bridge), and consumer read-buffer sizes varying per call from 1 B to 64 KiB; every 7th message has no operation-attributes group; the collected bytes must equal to_bytes() of the same instance (whose 8 header octets are themselves judged against the header values, whose attribute section is read by the reference decoder and must mean the message, and which in every 4th case is taken before the header is changed through header_mut(), the stream having to carry the header as it is now) followed by exactly the payload, end with repeated clean EOF, and drain the source. Cross pairs (blocking payload via async, async payload via blocking) are part of every run.",
     note="Every 4th blocking consumption of an async payload hands the half-read stream to a second thread. A consumer that has not polled the source again 20 s after the source's helper thread signalled readiness is reported as a lost wake-up (bounded progress); any other consumption exceeding 300 s is inconclusive."),
  "C15": dict(
     level="exploration", design="2/C15",
@@ -82,12 +82,12 @@ CHECKS = {
  "C16": dict(
     level="exploration", design="2/C16",
     technique="runtime monitor by complete enumeration of the finite code domains against registry tables embedded in the harness (exhaustive: true)",
-    text="All 65536 16-bit values go through StatusCode::from_u16, IppHeader::status_code (a fresh header, one header object re-used for every code, and its clone), is_success and Operation::from_u16, all 256 bytes through the delimiter and value tag enums, -4..65535 through the five attribute enums, the tag emitted for every value kind is compared with the registry, every value decoded from each of the 256 tag bytes over 74 bodies must be emitted with the same tag, every byte the parser accepts in delimiter position must be reported and re-emitted as itself, every value tag read by the parser under well-known attribute names must stay that tag, and every registered value of the five attribute enums must decode (except 15 finishings the pinned library does not have: unjudged). A registered code must give the variant the registry names for it, any other code 'unknown' or a symbol naming no registered code (a code missing from the harness's tables is unjudged unless its symbol is the registry's name for a different code, so that correct table extensions do not alarm), success for the RFC 8011 successful codes and never for a code above 0x00ff (0x0003-0x00ff left open, as the property does), and every variant must cast back to the integer it was decoded from. The domain is finite and enumerated completely on every run.",
+    text="All 65536 16-bit values go through StatusCode::from_u16, IppHeader::status_code (a fresh header, one header object re-used for every code, and its clone), both parsers reading the code off the wire under two protocol versions, is_success and Operation::from_u16, all 256 bytes through the delimiter and value tag enums, -4..65535 through the five attribute enums, the tag emitted for every value kind is compared with the registry, every value decoded from each of the 256 tag bytes over 74 bodies must be emitted with the same tag, every byte the parser accepts in delimiter position must be reported and re-emitted as itself, every value tag read by the parser under well-known attribute names must stay that tag, and every registered value of the five attribute enums must decode (except 15 finishings the pinned library does not have: unjudged). A registered code must give the variant the registry names for it, any other code 'unknown' or a symbol naming no registered code (a code missing from the harness's tables is unjudged unless its symbol is the registry's name for a different code, so that correct table extensions do not alarm), success for the RFC 8011 successful codes and never for a code above 0x00ff (0x0003-0x00ff left open, as the property does), and every variant must cast back to the integer it was decoded from. The domain is finite and enumerated completely on every run.",
     note="Trusted: the registry tables typed in from RFC 8010/8011, PWG 5100.1 and the CUPS specification; identifier comparison is modulo case and punctuation with listed aliases."),
  "C17": dict(
     level="exploration", design="2/C17",
     technique="runtime monitor: three-valued reference decision vs is_printer_ready over an exhaustive small grid plus seeded random responses, each judged in memory and after encode->parse",
-    text="Responses over the grid status code x printer-state form x printer-state-reasons form (absent, every single keyword, blocking keyword at every position of sets of 2..6, informational-only sets) x unrelated look-alike attributes and groups are judged against the reference decision (must-error with the same status, must-be-false, must-be-true, unspecified), both built in memory (half of them through IppAttributes::add alone, with replaced decoys) and after reference encoding and library parsing so that the parser decides set versus single value. Thorough adds every one of the 65536 status codes.",
+    text="Responses over the grid status code x printer-state form x printer-state-reasons form (absent, every single keyword, blocking keyword at every position of sets of 2..6, informational-only sets) x unrelated look-alike attributes and groups (among them a second, idle printer group reporting 'none' behind the judged first one) are judged against the reference decision (must-error with the same status, must-be-false, must-be-true, unspecified), both built in memory (half of them through IppAttributes::add alone, with replaced decoys) and after reference encoding and library parsing so that the parser decides set versus single value. Thorough adds every one of the 65536 status codes.",
     note="Suffix forms of blocking keywords (-warning/-report) and wrong-syntax states without a blocking reason are treated as unspecified, as the property states nothing about them."),
  "C19": dict(
     level="exploration", design="2/C19",
